@@ -85,7 +85,7 @@ enum Kind {
     /// its thread is inside a task when the system is stopped (held until `run` has returned) and several
     /// hundred commands are queued behind that task: every one of them was accepted (`spawn` on a live
     /// arbiter returns true whatever the backlog), and the system's `Stop` queues up behind them
-    Backlog,
+    Backlog(usize),
 }
 
 #[derive(Clone, PartialEq, Debug)]
@@ -189,6 +189,8 @@ struct Scenario {
     sysfeed: bool,
     /// c09: `retire i j …`: once all arbiters exist, these are stopped and joined, in this order
     retire: Vec<usize>,
+    /// c09: `sysload N`: the system thread has N local tasks that are runnable all the time
+    sysload: Option<usize>,
     /// c09: arbiter whose process-wide number is made equal to the system's id
     align: Option<usize>,
     /// c10: number of command targets (arbiters incl. the system arbiter)
@@ -383,7 +385,7 @@ fn custom_tokio_rt() -> tokio::runtime::Runtime {
 /// how long the slow runtime factory of `rt=slow` takes on the new arbiter's thread, in front of the
 /// registration: `Arbiter::with_tokio_rt` must not return before the arbiter is registered however long
 const SLOW_FACTORY: Duration = Duration::from_millis(350);
-/// commands queued behind the held task of a `backlog` arbiter
+/// commands queued behind the held task of a `backlog` arbiter when no number is given (`backlog:N`)
 const BACKLOG: usize = 1100;
 
 fn new_arbiter(custom: bool, slow: bool) -> Arbiter {
@@ -453,7 +455,7 @@ fn make_slot(k: Kind, rng: &mut Rng, custom: bool, slow: bool, after_new: &mut d
     let mut release = None;
     let mut refused = 0;
     let arb = match k {
-        Kind::Backlog => {
+        Kind::Backlog(nq) => {
             let (tx, rx) = mpsc::channel::<()>();
             let st = Arc::new(AtomicBool::new(false));
             let st2 = st.clone();
@@ -463,7 +465,7 @@ fn make_slot(k: Kind, rng: &mut Rng, custom: bool, slow: bool, after_new: &mut d
             });
             wait_flag(&st, Duration::from_secs(2));
             // owner and handle alternate; more than any "reasonable" queue bound
-            for i in 0..BACKLOG {
+            for i in 0..nq {
                 let ok = if i % 2 == 0 { arb.spawn_fn(|| {}) } else { handle.spawn(async {}) };
                 refused += !ok as usize;
             }
@@ -599,6 +601,7 @@ fn exec_c09(sc: &Scenario, mode_run: bool, block: bool, jseed: u64) -> Out {
     let slow = sc.slow_rt;
     let sysfeed = sc.sysfeed;
     let retire = sc.retire.clone();
+    let sysload = sc.sysload;
     let plain = (jseed >> 3) & 1 == 0;
     let mut rng = Rng::new(jseed);
     let late: Late = Arc::new(Mutex::new(vec![]));
@@ -650,6 +653,26 @@ fn exec_c09(sc: &Scenario, mode_run: bool, block: bool, jseed: u64) -> Out {
         let _ = locked_tx.send(());
         let runner = new_system_runner(custom);
         let sys = System::current();
+        if let Some(nq) = sysload {
+            // local tasks on the system thread that are ready whenever the event loop looks: what the controller
+            // does when it handles a command has to be done there and then, not queued up behind them
+            let spin = || async {
+                loop {
+                    YieldN(1).await;
+                }
+            };
+            if plain {
+                for _ in 0..nq {
+                    sys.arbiter().spawn(spin());
+                }
+            } else {
+                runner.block_on(async {
+                    for _ in 0..nq {
+                        actix_rt::spawn(spin());
+                    }
+                });
+            }
+        }
         if sysfeed {
             // started (with its helper) by the first turns of the system's event loop
             sys.arbiter().spawn(feeding_future(Arc::new(AtomicBool::new(false)), || {}));
@@ -931,7 +954,7 @@ fn exec_c09(sc: &Scenario, mode_run: bool, block: bool, jseed: u64) -> Out {
             }
             slot.release.take();
             if slot.refused > 0 {
-                late_t3.push(format!("{} of {BACKLOG} spawn / spawn_fn calls on a live arbiter (created by the batch, its thread held by a task) returned false", slot.refused));
+                late_t3.push(format!("{} of the spawn / spawn_fn calls on a live arbiter (created by the batch, its thread held by a task) returned false", slot.refused));
             }
             let started = Arc::new(AtomicBool::new(false));
             let st = started.clone();
@@ -1021,7 +1044,7 @@ fn exec_c09(sc: &Scenario, mode_run: bool, block: bool, jseed: u64) -> Out {
     }
     for (k, sl) in slots.iter().enumerate() {
         if sl.refused > 0 {
-            t3.push(("C09".into(), format!("arbiter {k} ({:?}): {} of {BACKLOG} spawn / spawn_fn calls on the live arbiter (its thread held by a task) returned false", kinds[k], sl.refused)));
+            t3.push(("C09".into(), format!("arbiter {k} ({:?}): {} of the spawn / spawn_fn calls on the live arbiter (its thread held by a task) returned false", kinds[k], sl.refused)));
         }
     }
     for (b, e) in entries.iter().enumerate() {
@@ -2349,6 +2372,15 @@ fn feed(sc: &mut Scenario, ws: &[&str]) -> LineRes {
             sc.retire = ks;
             LineRes::Plain("ok".into())
         }
+        (9, ["sysload", nq]) => {
+            match parse_nat(nq) {
+                Some(q) if q <= 2000 && sc.sysload.is_none() && sc.entries.is_empty() => {
+                    sc.sysload = Some(q);
+                    LineRes::Plain("ok".into())
+                }
+                _ => bad(),
+            }
+        }
         (9, ["sysfeed"]) => {
             if sc.sysfeed || !sc.entries.is_empty() {
                 return bad();
@@ -2654,7 +2686,7 @@ fn parse_origin(sc: &Scenario, o: &str, foreign_ok: bool) -> Option<Origin> {
         "foreign" if foreign_ok => Some(Origin::Foreign),
         _ => match parse_prefixed(o, "arb:") {
             // (a task on it must be able to run: not stopped, not retired, its thread not held)
-            Some(k) if k < sc.kinds.len() && !matches!(sc.kinds[k], Kind::Early | Kind::Done | Kind::Backlog) && !sc.retire.contains(&k) => Some(Origin::Arb(k)),
+            Some(k) if k < sc.kinds.len() && !matches!(sc.kinds[k], Kind::Early | Kind::Done | Kind::Backlog(_)) && !sc.retire.contains(&k) => Some(Origin::Arb(k)),
             _ => None,
         },
     }
